@@ -75,12 +75,20 @@ def _plant() -> Any:
         def __len__(self) -> int:
             return 0
 
+    class NegCode(Exception):
+        """args are not acceptable constructor arguments: cls(*args) raises ValueError, not TypeError."""
+
+        def __init__(self, code: int) -> None:
+            if code < 0:
+                raise ValueError("code must not be negative")
+            super().__init__(-code)
+
     class ChildOfPlain(Plain):
         def __init__(self, x: Any, y: Any = None, z: Any = None) -> None:
             super().__init__(x)
             self.lock = threading.Lock()  # makes instances un-picklable
 
-    for c in (Plain, PlainBase, CustomInit, KwOnly, Outer, FalsyBool, FalsyLen, ChildOfPlain):
+    for c in (Plain, PlainBase, CustomInit, KwOnly, Outer, FalsyBool, FalsyLen, ChildOfPlain, NegCode):
         c.__module__ = "vexc"
         c.__qualname__ = c.__name__
         setattr(m, c.__name__, c)
@@ -154,6 +162,7 @@ def special_instances() -> List[Tuple[str, BaseException]]:
         ("CustomInit", m.CustomInit("a", 2)),
         ("KwOnly", m.KwOnly(code=7)),
         ("ChildOfPlain", m.ChildOfPlain("x", 1)),
+        ("NegCode", m.NegCode(5)),
         ("StopIteration", StopIteration(3)),
         ("SystemExit0", SystemExit(0)),
         ("AssertionErrorEmpty", AssertionError()),
